@@ -6,7 +6,8 @@ CONSTANTS
   Sharings = {"none", "doc"}
   AnyOrder = FALSE
   NB = 2
-  MaxOps = 6
+  MaxOps = 5
+  Group = "none"
   Record = FALSE
   Slice = 0
   NSlices = 1
